@@ -156,6 +156,107 @@ def fake_eigh(evl, evc):
         np.linalg.eigh = orig
 
 
+class EighSpy:
+    """`np.linalg.eigh` replaced for the duration of one call of the implementation: records the matrix it is handed; returns either
+    chosen integer data (`fake=(evl, evc)`) or the real decomposition, which is recorded as well.  `calls` stays empty if the
+    implementation obtains its decomposition some other way (then the tie that needs it is skipped with a note)."""
+    def __init__(self, fake=None):
+        self.fake = fake; self.calls = []
+
+    def __enter__(self):
+        self.orig = np.linalg.eigh
+
+        def spy(a, *k, **kw):
+            inp = np.array(a, copy=True)
+            if self.fake is not None:
+                out = (np.array(self.fake[0], dtype=np.float64), np.array(self.fake[1]))
+            else:
+                out = self.orig(a, *k, **kw)
+            self.calls.append((inp, np.array(out[0], copy=True), np.array(out[1], copy=True)))
+            return out
+        np.linalg.eigh = spy
+        return self
+
+    def __exit__(self, *exc):
+        np.linalg.eigh = self.orig
+        return False
+
+
+def bits_c(z):
+    z = complex(z)
+    return f'{bits(z.real + 0.0)},{bits(z.imag + 0.0)}'
+
+
+def eigh_composition_ops(ctx, rng, add):
+    """ties that contain an eigen-decomposition, with the decomposition treated as data:
+    * `s2k` / `hf2k`: `super_op_to_kraus_op` / `hf_channel_to_kraus_op` end to end on Gaussian-integer data, `eigh` answering with
+      chosen integer data; the matrix handed to `eigh` is part of the compared answer (model: `superToChoi`, resp. of `superOfMap`);
+    * `c2kf`: `choi_op_to_kraus_op(C, dim_in, zero_eps)` on real floating-point Choi operators (full rank and rank deficient) with the
+      REAL `eigh`: its output `(EVL, EVC)` is passed to the model as binary64 data and everything after it (cut at `zero_eps`, scaling by
+      `sqrt`, reshape/transpose) must agree bit for bit (`-0.0` = `0.0`), for the default and for non-default `zero_eps`"""
+    import numqi
+    ch = numqi.channel
+    skipped = []
+    for rep in range(12 if ctx.quick() else 80):
+        din = int(rng.integers(1, 4)); dout = int(rng.integers(1, 4)); m = din * dout
+        n0 = int(rng.integers(0, m + 1))
+        evl = sorted([-int(x) for x in rng.integers(0, 3, size=n0)]) + sorted(int(x) ** 2 for x in rng.integers(1, 5, size=m - n0))
+        evc = rg(rng, (m, m), 3, True)
+        S = rg(rng, (dout * dout, din * din), 3, True)
+        G = rg(rng, (m, m), 3, True)
+        zero_eps = [None, 0.5, 1.0, 1e-3][rep % 4]          # any threshold in (0,1] cuts the same integers (theorem cutCount_eq_below)
+        kw = {} if zero_eps is None else dict(zero_eps=zero_eps)
+        for opname, arg, call in (('s2k', S, lambda: ch.super_op_to_kraus_op(S, **kw)),
+                                  ('hf2k', G, lambda: ch.hf_channel_to_kraus_op(lambda r: ch.apply_choi_op(G, r), din, **kw) if kw else
+                                   ch.hf_channel_to_kraus_op(lambda r: ch.apply_choi_op(G, r), din))):
+            if opname == 'hf2k' and kw:
+                import inspect
+                if 'zero_eps' not in inspect.signature(ch.hf_channel_to_kraus_op).parameters:
+                    call = lambda: ch.hf_channel_to_kraus_op(lambda r: ch.apply_choi_op(G, r), din)
+            with EighSpy(fake=(evl, evc)) as spy:
+                r = guarded(call)
+            if isinstance(r, str):
+                add(f'C12 {opname} {din} {dout} {gl(arg)} {";".join(map(str, evl)) or "-"} {gl(evc)}', lambda r=r: r); continue
+            if len(spy.calls) != 1:
+                skipped.append(opname); continue
+            ans = f'{gl(spy.calls[0][0])}|{r.shape[0]}|{gl(r)}' if r.shape[1:] == (dout, din) else f'shape{r.shape}'
+            add(f'C12 {opname} {din} {dout} {gl(arg)} {";".join(map(str, evl)) or "-"} {gl(evc)}', lambda ans=ans: ans)
+            ctx.count(f'{opname}-zero_eps-{zero_eps}')
+    for rep in range(16 if ctx.quick() else 120):
+        din = int(rng.integers(1, 4)); dout = int(rng.integers(1, 4)); m = din * dout
+        nk = max([1, max(1, m // 2), m][rep % 3], -(-din // dout))        # a trace-preserving set needs nk*dout >= din
+        K = numqi.random.rand_kraus_op(nk, din, dout, tag_complex=bool(rep % 2), seed=int(rng.integers(1 << 30)))
+        C = ch.kraus_op_to_choi_op(K)
+        zero_eps = [None, 1e-10, 1e-3, 0.2, 0.0, 1e-17][rep % 6]
+        with EighSpy() as spy:
+            r = guarded(lambda: ch.choi_op_to_kraus_op(C, din) if zero_eps is None else ch.choi_op_to_kraus_op(C, din, zero_eps))
+        if isinstance(r, str) or len(spy.calls) != 1:
+            skipped.append('c2kf'); continue
+        _, EVL, EVC = spy.calls[0]
+        eps = 1e-10 if zero_eps is None else zero_eps
+        op = f'C12 c2kf {din} {dout} {bits(eps)} {";".join(str(bits(x)) for x in EVL)} {";".join(bits_c(z) for z in EVC.reshape(-1))}'
+        ans = f'{r.shape[0]}|' + ';'.join(bits_c(z) for z in np.asarray(r).reshape(-1))
+        add(op, lambda ans=ans: ans)
+        ctx.count(f'c2kf-rank{nk}of{m}-zero_eps-{zero_eps}')
+    if skipped:
+        ctx.note(f'eigh composition ties skipped ({sorted(set(skipped))}): the implementation did not call np.linalg.eigh exactly once; the probes decide')
+
+
+def purity_ops(ctx, rng, add):
+    """`get_purity` on Gaussian-integer matrices (exact): complex128, int64 (real), torch"""
+    import numqi, torch
+    U = numqi.utils
+    for rep in range(8 if ctx.quick() else 60):
+        n = int(rng.integers(1, 5))
+        rho = rg(rng, (n, n), 4, True)
+        fmt = lambda v: f'{int(round(float(v)))},0' if float(v) == round(float(v)) else 'nonintegral'
+        add(f'C12 pur {n} {gl(rho)}', lambda rho=rho: fmt(checked(ctx, 'get_purity', U.get_purity, rho)))
+        add(f'C12 pur {n} {gl(rho)}', lambda rho=rho: fmt(U.get_purity(torch.tensor(rho))))
+        rre = rho.real.copy()
+        add(f'C12 pur {n} {gl(rre)}', lambda rre=rre: fmt(U.get_purity(rre.astype(np.int64))))
+        add(f'C12 pur {n} {gl(rre)}', lambda rre=rre: fmt(U.get_purity(np.asfortranarray(rre))))
+
+
 def bloch_tie(ctx, rng):
     """choi_op_to_bloch_map against the exact rational model value (scalars = the binary64 square roots taken exactly,
     everything else exact): the only inexact side is the implementation; tolerance 1e-12 relative to the largest entry"""
@@ -224,6 +325,36 @@ def spectral_tie(ctx, rng):
                                                                       U.get_von_neumann_entropy(np.diag(p).astype(np.complex128))])
         ops.append(f'C12 spec fid {fl(p)} {fl(q)}'); vals.append([U.get_fidelity(np.diag(p), np.diag(q)), float(U.get_fidelity(torch.tensor(np.diag(p)), torch.tensor(np.diag(q))))])
         ops.append(f'C12 spec rel {bits(eps)} {fl(p)} {fl(q)}'); vals.append([U.get_relative_entropy(np.diag(p), np.diag(q)), float(U.get_relative_entropy(torch.tensor(np.diag(p)), torch.tensor(np.diag(q))))])
+        # trace distance of commuting states (eigvalsh of a diagonal matrix is exact; the order of summation differs)
+        ops.append(f'C12 spec td {fl(p)} {fl(q)}'); vals.append([U.get_trace_distance(np.diag(p), np.diag(q)), U.get_trace_distance(np.diag(q).astype(np.complex128), np.diag(p).astype(np.complex128))])
+        # trace distance of general states: the eigenvalues of rho - sigma as returned by the real eigvalsh are passed as data
+        if d >= 2:
+            ra, rb = rand_state(rng, d, 'full'), rand_state(rng, d, 'low')
+            rec = []
+            orig = np.linalg.eigvalsh
+            np.linalg.eigvalsh = lambda a, *k, **kw: (rec.append(orig(a, *k, **kw)), rec[-1])[1]
+            try:
+                tdv = U.get_trace_distance(ra, rb)
+            finally:
+                np.linalg.eigvalsh = orig
+            if len(rec) == 1:
+                ops.append(f'C12 spec tdev {fl(rec[0])}'); vals.append([tdv])
+        # Renyi entropy (numpy, torch) for orders on both sides of 1
+        alpha = float([0.5, 2.0, 3.0, 0.3, 1.5, 7.0][rep % 6]) if rep % 2 else float(rng.uniform(0.05, 4.0))
+        if alpha != 1.0:
+            ops.append(f'C12 spec renyi {bits(alpha)} {fl(ps)}'); vals.append([U.get_Renyi_entropy(np.diag(p), alpha), float(U.get_Renyi_entropy(torch.tensor(np.diag(p)), alpha))])
+        # batched entropy: a (2,3,d,d) stack of diagonal states, numpy and torch; element [i,j] must be the entropy of state [i,j]
+        if rep % 3 == 1:
+            stack_p = rng.uniform(0.05, 1, size=(2, 3, d)); stack_p /= stack_p.sum(axis=-1, keepdims=True)
+            big = np.zeros((2, 3, d, d)); big[..., np.arange(d), np.arange(d)] = stack_p
+            rn = U.get_von_neumann_entropy(big); rt = U.get_von_neumann_entropy(torch.tensor(big)).numpy()
+            if rn.shape != (2, 3) or rt.shape != (2, 3):
+                ctx.disagree('C12 spec ent batched shape', '(2, 3)', f'{rn.shape} / {rt.shape}')
+            else:
+                for i in range(2):
+                    for j in range(3):
+                        ops.append(f'C12 spec ent {bits(eps)} {fl(np.sort(stack_p[i, j]))}'); vals.append([rn[i, j], rt[i, j], U.get_von_neumann_entropy(big[i, j])])
+                ctx.count('spectral-ent-batched')
     model = common.run_model(ops)
     worst = 0.0
     for op, got, mo in zip(ops, vals, model):
@@ -332,6 +463,8 @@ def correspondence(ctx):
         add(f'C12 depol {bits(np.sqrt(1 - 3 * p / 4))} {bits(np.sqrt(p / 4))}', lambda: qi_list(ch.hf_depolarizing_kraus_op(p)))
         add(f'C12 ampd {bits(np.sqrt(1 - p))} {bits(np.sqrt(p))}', lambda: qi_list(ch.hf_amplitude_damping_kraus_op(p)))
         ctx.count('noise-rate')
+    eigh_composition_ops(ctx, rng, add)
+    purity_ops(ctx, rng, add)
     check_module_constants(ctx, consts, 'the conversion / apply calls of the exact tie')
     model = common.run_model(ops)
 
@@ -339,7 +472,7 @@ def correspondence(ctx):
         t = op.split(' ')
         if t[1] in ('k2c', 'k2s', 'apk'):
             return int(t[3]) * int(t[4]) > 1
-        if t[1] in ('c2s', 's2c', 'apc', 'aps', 'hf2c', 'hf2s', 'c2k'):
+        if t[1] in ('c2s', 's2c', 'apc', 'aps', 'hf2c', 'hf2s', 'c2k', 's2k', 'hf2k', 'c2kf'):
             return int(t[2]) * int(t[3]) > 1
         return True
     # a rejection is a rejection: which exception class / message the implementation (or the model's label) uses must not matter
@@ -403,6 +536,7 @@ TOL_SQRT = 1e-6     # quantities that take the square root of an eigenvalue that
 
 def probe(ctx):
     import numqi, torch
+    corpus_replay(ctx)
     ch = numqi.channel
     U = numqi.utils
     rng = np.random.default_rng(ctx.np_seed + 1)
@@ -586,6 +720,8 @@ def probe(ctx):
             else:
                 ctx.probe_ok(('noise', name, p))
     probe_hardening(ctx, rng)
+    probe_renyi(ctx, np.random.default_rng(ctx.np_seed + 31))
+    probe_values(ctx, np.random.default_rng(ctx.np_seed + 32))
     ctx.extra['probe_worst'] = {k: float(v) for k, v in worst.items()}
     ctx.assumptions.append('probe tolerances: 1e-9 for equivalence of representations and for the inequalities on full-rank states; 1e-6 where a '
                            'square root of a rounding-level eigenvalue enters (fidelity with a rank-deficient input or output state: sqrt(2.2e-16*d) ~ 3e-8 per zero eigenvalue, up to 5 of them, doubled by the final squaring; worst observed 3e-8); '
@@ -706,6 +842,160 @@ def probe_hardening(ctx, rng):
             else:
                 ctx.probe_ok(('boundary', d, tag))
     check_module_constants(ctx, consts, 'the metric calls')
+
+
+RENYI_KEY = 'renyi-entropy-nan'
+
+
+def probe_values(ctx, rng):
+    """independent oracles for the functions whose exact tie treats a LAPACK call as data: purity (= tr rho^2 = sum |rho_ij|^2), trace
+    distance (= half the nuclear norm, via SVD), the `zero_eps` cut of choi_op_to_kraus_op (number of Kraus operators = number of
+    eigenvalues >= zero_eps, and the kept ones reproduce the Choi operator up to the discarded weight), batched von Neumann entropy"""
+    import numqi, torch
+    U = numqi.utils; ch = numqi.channel
+    for rep in range(10 if ctx.quick() else 80):
+        d = int(rng.integers(1, 6)); seed = int(rng.integers(1 << 30)); r2 = np.random.default_rng(seed)
+        kind = ['full', 'low', 'pure'][rep % 3]
+        rho, sig = rand_state(r2, d, kind), rand_state(r2, d, 'full')
+        info = dict(d=d, state_kind=kind, state_seed=seed)
+        try:
+            pu = float(U.get_purity(rho)); put = float(U.get_purity(torch.tensor(rho)))
+            A = r2.normal(size=(d, d)) + 1j * r2.normal(size=(d, d))
+            pa = float(U.get_purity(A))
+            td = float(U.get_trace_distance(rho, sig))
+        except Exception as e:
+            ctx.fail('metric-value-raises', f'{type(e).__name__}: {e}', dict(info, op='get_purity / get_trace_distance')); continue
+        want = float(np.trace(rho @ rho).real)
+        if abs(pu - want) > 1e-12 or abs(put - want) > 1e-12 or not (1 / d - 1e-12 <= pu <= 1 + 1e-12) or abs(pa - float((np.abs(A) ** 2).sum())) > 1e-10 * max(1.0, pa):
+            ctx.fail('purity-value', f'get_purity(rho) = {pu} (torch {put}) but tr(rho^2) = {want}; general matrix: {pa} vs sum|a_ij|^2 = {float((np.abs(A) ** 2).sum())}',
+                     dict(info, op='get_purity', rho=[[repr(complex(x)) for x in row] for row in rho]))
+        elif abs(td - 0.5 * float(np.linalg.svd(rho - sig, compute_uv=False).sum())) > 1e-12:
+            ctx.fail('trace-distance-value', f'get_trace_distance = {td} but half the nuclear norm of rho - sigma is {0.5 * float(np.linalg.svd(rho - sig, compute_uv=False).sum())}',
+                     dict(info, op='get_trace_distance'))
+        else:
+            ctx.probe_ok(('values', d, kind, seed))
+    for rep in range(9 if ctx.quick() else 60):
+        din = int(rng.integers(1, 4)); dout = int(rng.integers(1, 4)); m = din * dout; seed = int(rng.integers(1 << 30))
+        nk = max([1, max(1, m // 2), m][rep % 3], -(-din // dout))
+        eps = [0.2, 1e-3, 1e-10][rep % 3]
+        info = dict(op='choi_op_to_kraus_op(C, dim_in, zero_eps)', din=din, dout=dout, kraus_terms=nk, kraus_seed=seed, zero_eps=eps)
+        try:
+            C = ch.kraus_op_to_choi_op(numqi.random.rand_kraus_op(nk, din, dout, seed=seed))
+            evl, evc = np.linalg.eigh(C)
+            # every other case: a threshold strictly inside the positive spectrum (between two adjacent eigenvalues)
+            gaps = [j for j in range(m - 1) if evl[j + 1] - evl[j] > 1e-6 and evl[j + 1] > 1e-6]
+            if rep % 2 == 0 and gaps:
+                j = gaps[int(rng.integers(len(gaps)))]
+                eps = float(max(evl[j], 0.0) + evl[j + 1]) / 2
+                info['zero_eps'] = eps
+            K = ch.choi_op_to_kraus_op(C, din, eps)
+            keep = evl >= eps
+            C_keep = (evc[:, keep] * evl[keep]) @ evc[:, keep].conj().T
+            err = maxdiff(ch.kraus_op_to_choi_op(K), C_keep) if K.shape[0] else float(np.abs(C_keep).max(initial=0.0))
+        except Exception as e:
+            ctx.fail('choi-to-kraus-raises', f'{type(e).__name__}: {e}', info); continue
+        if K.shape[0] != int(keep.sum()) or err > 1e-10:
+            ctx.fail('choi-to-kraus-zero-eps', f'choi_op_to_kraus_op(zero_eps={eps}) returned {K.shape[0]} Kraus operators, the Choi operator has {int(keep.sum())} eigenvalues >= zero_eps '
+                     f'(spectrum {evl.tolist()}); distance of their Choi operator from the truncated one: {err:.3e}', info)
+        else:
+            ctx.probe_ok(('zero-eps', din, dout, nk, eps))
+    for rep in range(3 if ctx.quick() else 20):
+        d = int(rng.integers(1, 5)); seed = int(rng.integers(1 << 30)); r2 = np.random.default_rng(seed)
+        shape = [(2, 3), (4,), (2, 1, 2)][rep % 3]
+        big = np.stack([rand_state(r2, d, ['full', 'low'][i % 2]) for i in range(int(np.prod(shape)))]).reshape(*shape, d, d)
+        info = dict(op='get_von_neumann_entropy (batched)', batch_shape=list(shape), d=d, state_seed=seed)
+        try:
+            rn = np.asarray(U.get_von_neumann_entropy(big)); rt = U.get_von_neumann_entropy(torch.tensor(big)).numpy()
+            single = np.array([float(U.get_von_neumann_entropy(x)) for x in big.reshape(-1, d, d)]).reshape(shape)
+        except Exception as e:
+            ctx.fail('entropy-batched-raises', f'{type(e).__name__}: {e}', info); continue
+        if rn.shape != tuple(shape) or rt.shape != tuple(shape) or np.abs(rn - single).max() > 1e-12 or np.abs(rt - single).max() > 1e-12:
+            ctx.fail('entropy-batched', f'batched get_von_neumann_entropy {rn.tolist()} (torch {rt.tolist()}) differs from the entropies of the individual states {single.tolist()}', info)
+        else:
+            ctx.probe_ok(('entropy-batched', shape, d))
+
+
+def corpus_replay(ctx):
+    """/verif/corpus/C12/*.json: the recorded failing inputs of every repaired defect, replayed first on every run (both tiers)"""
+    import glob, json, os, numqi, torch, warnings
+    U = numqi.utils
+    for path in sorted(glob.glob(os.path.join(common.VERIF, 'corpus', 'C12', '*.json'))):
+        tag = os.path.basename(path)[:-5]
+        for j, e in enumerate(json.load(open(path))['entries']):
+            if e.get('kind') != 'renyi':
+                continue
+            states = []
+            if e['state'] == 'pure':
+                v = np.array([complex(x) for x in e['vector']]); v = v / np.linalg.norm(v)
+                states.append(('vector ' + repr(e['vector']), np.outer(v, v.conj())))
+            else:
+                for sd in e['seeds']:
+                    states.append((f'{e["state"]} seed {sd}', rand_state(np.random.default_rng(sd), e['d'], 'pure' if e['state'].startswith('pure') else 'low')))
+            for desc, rho in states:
+                d = rho.shape[0]
+                for a in e['alphas']:
+                    rep = dict(op='get_Renyi_entropy', corpus=f'{tag}#{j}', state=desc, alpha=a, d=d)
+                    try:
+                        with warnings.catch_warnings():
+                            warnings.simplefilter('ignore')
+                            v = float(U.get_Renyi_entropy(rho, a)); t = float(U.get_Renyi_entropy(torch.tensor(rho), a))
+                    except Exception as ex:
+                        ctx.fail(RENYI_KEY, f'[corpus {tag}] get_Renyi_entropy raises {type(ex).__name__}', rep); continue
+                    tol = 1e-12 * d
+                    if not (np.isfinite(v) and np.isfinite(t)) or not (-tol <= v <= np.log(d) + tol) or not (-tol <= t <= np.log(d) + tol):
+                        ctx.fail(RENYI_KEY, f'[corpus {tag}] get_Renyi_entropy(rho, alpha={a}) = {v} (numpy) / {t} (torch) for {desc} (d={d}); must lie in [0, log d]', rep)
+                    else:
+                        ctx.probe_ok(('corpus', tag, j, desc, a))
+
+
+def probe_renyi(ctx, rng):
+    """`get_Renyi_entropy` on full-rank / low-rank / pure states, numpy and torch: finite, in [0, log d], non-increasing in the order,
+    von Neumann entropy between the orders below and above 1, equal to log d on the maximally mixed state"""
+    import numqi, torch, warnings
+    U = numqi.utils
+    alphas = [0.3, 0.5, 0.9, 1.5, 2.0, 3.0]
+    for rep in range(12 if ctx.quick() else 90):
+        d = int(rng.integers(2, 6)); kind = ['full', 'low', 'pure'][rep % 3]; seed = int(rng.integers(1 << 30))
+        rho = rand_state(np.random.default_rng(seed), d, kind)
+        info = dict(op='get_Renyi_entropy', d=d, state_kind=kind, state_seed=seed, rho=[[repr(complex(x)) for x in row] for row in rho])
+        try:
+            with warnings.catch_warnings():
+                warnings.simplefilter('ignore')
+                vals = [float(U.get_Renyi_entropy(rho, a)) for a in alphas]
+                valt = [float(U.get_Renyi_entropy(torch.tensor(rho), a)) for a in alphas]
+                vn = float(U.get_von_neumann_entropy(rho))
+        except Exception as e:
+            ctx.fail('renyi-entropy-raises', f'{type(e).__name__}: {e}', info); continue
+        nan = [(a, v, t) for a, v, t in zip(alphas, vals, valt) if not (np.isfinite(v) and np.isfinite(t))]
+        if nan:
+            a, v, t = nan[0]
+            ctx.fail(RENYI_KEY, f'get_Renyi_entropy(rho, alpha={a}) = {v} (numpy) / {t} (torch) for a {kind} state of dimension {d} whose eigvalsh is '
+                     f'{np.linalg.eigvalsh(rho).tolist()}: a slightly negative eigenvalue raised to a fractional power is NaN (no clipping as in '
+                     f'get_von_neumann_entropy); the value must lie in [0, log d] = [0, {np.log(d):.6f}]', dict(info, alpha=a, orders_with_nan=[x[0] for x in nan]))
+            continue
+        tol = 1e-12 * d          # round-off: a few ulp per eigenvalue, amplified by 1/|1-alpha| <= 10 (the repaired code returns -4.4e-16 for pure states)
+        msgs = []
+        if any(not (-tol <= v <= np.log(d) + tol) for v in vals + valt):
+            msgs.append(f'out of [0, log d]: {vals}')
+        # conditioning: for a rank-deficient state the d - r null eigenvalues come back as noise of size ~1e-16 whose alpha-th power enters the
+        # sum, so S_alpha is determined only up to d * (1e-14)^min(alpha,1) / |1 - alpha| (5e-4 at alpha = 0.3, round-off for alpha >= 1)
+        noise = [1e-9 if kind == 'full' else d * (1e-14) ** min(a, 1.0) / abs(1 - a) + 1e-9 for a in alphas]
+        if any(abs(a - b) > nz for a, b, nz in zip(vals, valt, noise)):
+            msgs.append(f'numpy {vals} != torch {valt}')
+        if any(vals[i] < vals[i + 1] - noise[i] for i in range(len(vals) - 1)):
+            msgs.append(f'not non-increasing in alpha: {vals}')
+        if not (vals[3] - 1e-7 <= vn <= vals[2] + 1e-7 + noise[2]):
+            msgs.append(f'von Neumann entropy {vn} not between S_1.5={vals[3]} and S_0.9={vals[2]}')
+        if msgs:
+            ctx.fail('renyi-entropy-range', '; '.join(msgs), dict(info, alphas=alphas))
+        else:
+            ctx.probe_ok(('renyi', d, kind, seed))
+    for d in (1, 2, 5):
+        v = float(U.get_Renyi_entropy(np.eye(d) / d, 2.0))
+        if abs(v - np.log(d)) > 1e-12:
+            ctx.fail('renyi-entropy-range', f'S_2(1/d) = {v} != log {d}', dict(op='get_Renyi_entropy', d=d, alpha=2.0, rho='maximally mixed'))
+        else:
+            ctx.probe_ok(('renyi-mixed', d))
 
 
 def search(ctx, hints):
